@@ -16,6 +16,8 @@
 #include <QHostAddress>
 #include <QSet>
 
+#include <memory>
+
 namespace {
 
 QByteArray keyBytes(int len)
@@ -292,6 +294,10 @@ void runCase(Ctx &ctx, const QJsonObject &b, QVector<QPair<QByteArray, int>> &po
     const QByteArray key = keyBytes(klen);
     QByteArray bytes;
     bool encoded = false;
+    // the receive buffer of the last Decode(same) (a heap object of its own, like the one a receive loop
+    // refills for every datagram) and the message decoded from it, which its holder keeps
+    std::unique_ptr<QByteArray> rbuf;
+    std::unique_ptr<QXmppStunMessage> held;
     const auto steps = b["steps"].toArray();
     for (const auto &sv : steps) {
         const auto s = sv.toObject();
@@ -322,14 +328,43 @@ void runCase(Ctx &ctx, const QJsonObject &b, QVector<QPair<QByteArray, int>> &po
                 }
             }
             for (const auto &kv : keys) {
-                QXmppStunMessage d;
-                const bool ok = d.decode(bytes, kv.second);
+                if (kn == "same") {
+                    held.reset();
+                    rbuf = std::make_unique<QByteArray>(bytes.constData(), bytes.size());  // deep copy
+                    held = std::make_unique<QXmppStunMessage>();
+                }
+                QXmppStunMessage local;
+                QXmppStunMessage &d = kn == "same" ? *held : local;
+                const bool ok = d.decode(kn == "same" ? *rbuf : bytes, kv.second);
                 QJsonObject ev { { "e", "Decode" }, { "key", kn == "other" ? "other" : kn }, { "kv", kv.first }, { "ok", ok } };
                 ev["d"] = ok ? project(d) : emptyMsg();
                 // what was decoded, encoded again the same way, gives the same bytes
                 ev["re"] = ok && kn != "other" && d.encode(key, fp) == bytes;
                 ctx.emit_(ev);
             }
+        } else if (a == "ReuseBuffer") {
+            // the next datagram (other bytes, same size) is written into the same buffer: no reallocation
+            if (!rbuf || !held) {
+                break;
+            }
+            char *p = rbuf->data();
+            for (int i = 0; i < rbuf->size(); i++) {
+                p[i] = char(~p[i]);
+            }
+            ctx.emit_({ { "e", "ReuseBuffer" } });
+        } else if (a == "FreeBuffer") {
+            if (!rbuf || !held) {
+                break;
+            }
+            ctx.emit_({ { "e", "FreeBuffer" } });
+            ctx.out.flush();  // what was observed so far survives a sanitizer abort in the next step
+            rbuf.reset();
+        } else if (a == "Observe") {
+            // the holder reads every attribute back and encodes the message again
+            if (!held) {
+                break;
+            }
+            ctx.emit_({ { "e", "Observe" }, { "d", project(*held) }, { "re", held->encode(key, fp) == bytes } });
         } else if (a == "FlipAll") {
             // every single-bit corruption of the encoded message, decoded under the sender's key
             qint64 n = 0, nacc = 0;
